@@ -159,13 +159,35 @@ def job_history(job):
                 @A.register
                 def f_nested(a, b):
                     return f_gp_add(a, b) * a
+                @A.register
+                def f_ip_op(a, b):
+                    return (a | b) + (a ^ b)
+                @A.register
+                def f_sums(a, b):
+                    return a.sp(b) + a.acp(b) + (a + b)
                 return {'f_gp_add': (f_gp_add, lambda a, b: a * b + b), 'f_sw': (f_sw, lambda a, b: (a >> b) - a.grade(0)),
-                        'f_nested': (f_nested, lambda a, b: (a * b + b) * a)}
+                        'f_nested': (f_nested, lambda a, b: (a * b + b) * a), 'f_ip_op': (f_ip_op, lambda a, b: (a | b) + (a ^ b)),
+                        'f_sums': (f_sums, lambda a, b: a.sp(b) + a.acp(b) + (a + b))}
             registered = mk_reg(alg)
             steps = []
             focus = [None]
             keysets = [tuple(rng.sample(range(N), rng.randint(1, min(N, 3)))) for _ in range(3)]
             returned = []
+            # prelude: a direct operator call with the operand patterns one way round, then a registered function using the same
+            # operators with the patterns the other way round (what one call left behind must not be mistaken for the mirrored case)
+            if alg.d >= 2:
+                vk, Bk = tuple(alg.indices_for_grades[(1,)]), tuple(alg.indices_for_grades[(2,)])
+                vv, Bv = frac_vals(rng, vk), frac_vals(rng, Bk)
+                for first in ('ip', 'sp', 'acp', 'add', 'op'):
+                    _safe(lambda: getattr(alg, first)(mv_from(alg, Bk, list(Bv)), mv_from(alg, vk, list(vv))))
+                for rn in ('f_ip_op', 'f_sums'):
+                    out['evaluations'] += 1
+                    fresh_alg0 = make_algebra(cfg)
+                    g0 = _safe(lambda: registered[rn][0](mv_from(alg, vk, list(vv)), mv_from(alg, Bk, list(Bv))))
+                    e0 = _safe(lambda: mk_reg(fresh_alg0)[rn][0](mv_from(fresh_alg0, vk, list(vv)), mv_from(fresh_alg0, Bk, list(Bv))))
+                    if g0[0] != e0[0] or (g0[0] == 'value' and not _eq(_elem(fr, g0[1]), _elem(fr, e0[1]))):
+                        out['failures'].append({'config': cfg, 'what': 'result differs from a fresh algebra', 'history': [['op', 'ip/sp/acp/add/op (bivector, vector)'], ['reg', rn + ' (vector, bivector)']],
+                                                'got': str(g0)[:200], 'expected': str(e0)[:200]})
             for s in range(cfg.get('steps', 25)):
                 ks = list(rng.choice(keysets))
                 if rng.random() < 0.5:
